@@ -314,6 +314,8 @@ def run(chk, repo, tier):
         got = pt_name(p.ret) if p.status == 'return' else None
         exc = p.exc if p.status == 'raise' else None
         ok = (got == want) if want else (p.status == 'raise' and exc == 'TypeError')
+        if not ok and not want and p.status == 'return':
+            ok = None           # the helper only looks the type up: whether the propagators refuse is decided for each of them below
         chk.ob('C08-c', 'T-transition', 'propagate._propagate_ptype', f'propagation from {name}', ok,
                f'documented: {want or "refused (TypeError)"}; code: {got or ("raises " + str(exc))}', fpp.loc())
     for key in ('propagate.propagate_dft', 'propagate.propagate_fft'):
@@ -464,6 +466,16 @@ def run(chk, repo, tier):
             continue
         nc_ += 1
         v_ = st_[-1].data.get('value')
+        # ptype() is idempotent: ptype(ptype(x)) is ptype(x)
+        for _ in range(3):
+            va_ = v_.single_atom() if isinstance(v_, Poly) else None
+            if va_ is not None and is_app(va_, 'call:ptype.ptype'):
+                inner_ = dict((k_.items[0].value, k_.items[1]) for k_ in va_[2] if isinstance(k_, Tup)).get('ptype')
+                ia_ = inner_.single_atom() if isinstance(inner_, Poly) else None
+                if ia_ is not None and is_app(ia_, 'call:ptype.ptype'):
+                    v_ = inner_
+                    continue
+            break
         if v_ != given and v_ != S('ptype'):
             okc = False
             detc = f'a path stores ptype = {fmt(v_)[:60]} [{conds_str(p)[-120:]}]: not the type the constructor was given'
